@@ -13,7 +13,7 @@ From Coq Require Import NArith List Bool.
 From AV Require Import Generated.Table Spec.Io Spec.Strip Model.Base Model.Utf8parse Model.Parser Model.Strip
   Model.Stream Proofs.TableFacts Proofs.StripMachine Proofs.StripSim Proofs.StreamIo Proofs.Stream
   Proofs.StreamAuto Generated.StreamFn Proofs.StreamGen Generated.AutoFn Proofs.AutoGen
-  Model.Glue Generated.GlueFn Proofs.GlueGen.
+  Model.Glue Generated.GlueFn Proofs.GlueGen Generated.MacrosFn Proofs.MacrosGen.
 Import ListNotations.
 Local Open Scope N_scope.
 
@@ -183,3 +183,60 @@ Proof. exact buffer_new_as_bytes. Qed.
 (* `AutoStream::wincon` in this configuration (no legacy console): the raw stream comes back, no stream is built *)
 Theorem c08_translated_wincon_unavailable : forall cf raw, g_as_wincon cf raw = inr raw.
 Proof. exact g_as_wincon_eq. Qed.
+
+(* ---- the print macros (crates/anstream/src/_macros.rs), translated arm by arm by tools/gen_fn_macros.py's macro_rules
+   reader (Generated/MacrosFn.v).  [mac_arm err nl] is the translated main arm of print! (false, false), println!
+   (false, true), eprint! (true, false), eprintln! (true, true); `world` the list of events the call adds to
+   (Model/Glue.v mevent); ct / ft = `cfg!(test)` / the feature "test"; lossy = String::from_utf8_lossy, fmt_nl =
+   `format_args_nl!` (both arbitrary); ch = what `choice(&raw)` answers per raw stream, cf the answers of the std handle,
+   cfv those of the in-memory Vec.  The hand model [mac_model]: outside tests a FRESH stream over the macro's own std
+   handle in the mode that handle's answers decide (Never: strip, else pass through), ONE write_fmt, a panic on an error;
+   under test the fragments stripped / forwarded in a Vec per the choice of the macro's own handle, then std's macro *)
+Theorem c08_translated_macros_are_model :
+  forall lossy fmt_nl (err nl ct ft : bool) cfv (ch : writer -> cchoice) cf (so se : writer) world args,
+  ac_decided cf <> CAuto -> ch (if err then se else so) <> CAuto ->
+  mac_arm lossy fmt_nl err nl ct ft cfv ch cf so se world args = mac_model lossy fmt_nl (ct || ft) cfv ch cf err nl so se args world.
+Proof. exact translated_macros_are_model. Qed.
+
+(* outside tests: the stream that is WRITTEN TO is the handle the macro names, in the mode that handle's own answers
+   decide, through exactly one write_fmt of the hand model (Never = the strip arm of C08, else pass-through) *)
+Theorem c08_translated_print_writes_own_stream :
+  forall lossy fmt_nl cfv ch cf so se world args,
+  ac_decided cf <> CAuto ->
+  forall err nl : bool,
+  mac_arm lossy fmt_nl err nl false false cfv ch cf so se world args =
+  match auto_op (ac_wv_all cf) (mac_mode (ac_decided cf)) sb_new (if err then se else so)
+                (OWriteFmt (if nl then fmt_nl args else args)) with
+  | Some (s1, w1, r) =>
+      Some (world ++ MWriteFmt (as_of (mac_mode (ac_decided cf)) s1 w1) (match r with RErr e => inr e | _ => inl tt end)
+                     :: match r with RErr e => [MPanicIo (if err then mac_msg_stderr else mac_msg_stdout) e] | _ => [] end)
+  | None => None
+  end.
+Proof. exact translated_print_writes_own_stream. Qed.
+
+(* println!() / eprintln!() are print!("\n") / eprint!("\n") *)
+Theorem c08_translated_empty_println_is_print :
+  forall lossy fmt_nl ct ft cfv ch cf so se world,
+  g_println_arm0 lossy fmt_nl ct ft cfv ch cf so se world = g_print_arm0 lossy fmt_nl ct ft cfv ch cf so se world [[10]] /\
+  g_eprintln_arm0 lossy fmt_nl ct ft cfv ch cf so se world = g_eprint_arm0 lossy fmt_nl ct ft cfv ch cf so se world [[10]].
+Proof. exact translated_empty_println_is_print. Qed.
+
+(* to_adapted_string (what the macros use under test, and panic! always): a fresh stream over an empty Vec in the mode
+   the TARGET stream's choice names, one write_fmt, the Vec's content through from_utf8_lossy *)
+Theorem c08_translated_to_adapted_string :
+  forall lossy cfv (ch : writer -> cchoice) frags target,
+  ch target <> CAuto ->
+  g_to_adapted_string lossy cfv ch frags target = mac_adapted lossy (ac_wv_all cfv) (ch target) frags.
+Proof. exact g_to_adapted_string_eq. Qed.
+
+(* panic!(..) adapts its message for STDERR (never stdout), in every configuration; panic!() is std's *)
+Theorem c08_translated_panic_asks_stderr :
+  forall lossy fmt_nl (ct ft : bool) cfv (ch : writer -> cchoice) cf (so se : writer) world args,
+  ch se <> CAuto ->
+  g_panic_arm1 lossy fmt_nl ct ft cfv ch cf so se world args =
+  match mac_adapted lossy (ac_wv_all cfv) (ch se) args with Some t => Some (world ++ [MPanic t]) | None => None end.
+Proof. exact translated_panic_is_model. Qed.
+Theorem c08_translated_panic_empty :
+  forall lossy fmt_nl (ct ft : bool) cfv (ch : writer -> cchoice) cf (so se : writer) world,
+  g_panic_arm0 lossy fmt_nl ct ft cfv ch cf so se world = world ++ [MPanicExplicit].
+Proof. exact translated_panic_empty. Qed.
